@@ -15,6 +15,37 @@ Lemma gen_badger_not_stub : badger_stub_iterate_by_prefix_from = false /\ badger
   badger_stub_keys_by_prefix_count = false /\ badger_stub_iterate_by_prefix = false.
 Proof. repeat split; reflexivity. Qed.
 
+Lemma gen_settled : persist_settled_confirmed = true /\ persist_confirm_counts = true.
+Proof. split; reflexivity. Qed.
+
+(* persist's batch and confirm steps, with the generated statement order (batch before confirmation) *)
+Lemma ms_batch_eq : forall st, ms_batch st =
+  match ms_fly st with
+  | Some f => match if_stage f with
+              | Swapped => match eng_batch (ms_engine st) (ms_db st) (batch_of f) with
+                           | Some db' => (set_db st db' (Some (written f)) (ms_counts st), [EvBatch (batch_of f)])
+                           | None => (ms_kill st, [EvPanic])
+                           end
+              | Written => (st, [])
+              end
+  | None => (st, [])
+  end.
+Proof. intro st. unfold ms_batch. destruct (ms_fly st) as [f|]; [|reflexivity]. destruct (if_stage f); reflexivity. Qed.
+
+Lemma ms_confirm_eq : forall st, ms_confirm_step st =
+  match ms_fly st with
+  | Some f => match if_stage f with
+              | Written => (set_db st (ms_db st) None (fst (relays_of (ms_confirm st) (ms_counts st) f)),
+                            snd (relays_of (ms_confirm st) (ms_counts st) f))
+              | Swapped => (st, [])
+              end
+  | None => (st, [])
+  end.
+Proof.
+  intro st. unfold ms_confirm_step. destruct (ms_fly st) as [f|]; [|reflexivity]. destruct (if_stage f); [reflexivity|].
+  rewrite gen_confirm_after_batch. destruct (relays_of (ms_confirm st) (ms_counts st) f). reflexivity.
+Qed.
+
 (* ------------------------------------------------------------ kv helpers *)
 Lemma kv_mem_get {V} : forall (m : kv V) k, kv_mem m k = true <-> exists v, kv_get m k = Some v.
 Proof. intros. unfold kv_mem. destruct (kv_get m k); split; intro H; try discriminate; eauto. destruct H; discriminate. Qed.
@@ -88,7 +119,7 @@ Lemma wf_swap : forall st, ms_wf st -> ms_wf (fst (ms_swap st)).
 Proof.
   intros st (Hd & Ha & Hu & Hdl & Hf). unfold ms_swap. destruct (ms_fly st) eqn:E; cbn.
   - repeat split; try assumption. rewrite E. exact Hf.
-  - repeat split; try constructor; try assumption; unfold cancel_add, cancel_upd, cancel_del; cbn; apply ksorted_filter; assumption.
+  - unfold ms_wf, fly_wf. cbn. repeat split; try constructor; try assumption; unfold cancel_add, cancel_upd, cancel_del; cbn; apply ksorted_filter; assumption.
 Qed.
 
 Lemma eng_batch_sorted : forall e (db : kv msg) ops db', ksorted db -> eng_batch e db ops = Some db' -> ksorted db'.
@@ -100,7 +131,7 @@ Qed.
 
 Lemma wf_batch : forall st, ms_wf st -> ms_wf (fst (ms_batch st)).
 Proof.
-  intros st Hwf. pose proof Hwf as (Hd & Ha & Hu & Hdl & Hf). unfold ms_batch.
+  intros st Hwf. pose proof Hwf as (Hd & Ha & Hu & Hdl & Hf). rewrite ms_batch_eq.
   destruct (ms_fly st) as [f|] eqn:E; [|exact Hwf]. destruct (if_stage f) eqn:Es; [|exact Hwf].
   destruct (eng_batch (ms_engine st) (ms_db st) (batch_of f)) as [db'|] eqn:Eb; cbn.
   - cbn in Hf. destruct Hf as (F1 & F2 & F3). unfold ms_wf. cbn.
@@ -110,7 +141,7 @@ Qed.
 
 Lemma wf_confirm : forall st, ms_wf st -> ms_wf (fst (ms_confirm_step st)).
 Proof.
-  intros st Hwf. pose proof Hwf as (Hd & Ha & Hu & Hdl & Hf). unfold ms_confirm_step.
+  intros st Hwf. pose proof Hwf as (Hd & Ha & Hu & Hdl & Hf). rewrite ms_confirm_eq.
   destruct (ms_fly st) as [f|] eqn:E; [|exact Hwf]. destruct (if_stage f); [exact Hwf|]. cbn. repeat split; assumption.
 Qed.
 
@@ -160,7 +191,7 @@ Definition covers (k : key) (l : mlabel) : bool :=
 Definition label_safe (k : key) (l : mlabel) : bool := negb (is_del_of k l) && negb (covers k l).
 
 Definition fly_del_free (k : key) (f : option inflight) : Prop :=
-  match f with Some f => kv_mem (if_del f) k = false | None => True end.
+  match f with Some f => kv_mem (if_del f) k = false /\ kv_mem (if_settled f) k = false | None => True end.
 Definition fly_written_in (k : key) (st : mstore) : Prop :=
   match ms_fly st with
   | Some f => if_stage f = Written -> kv_mem (if_add f) k = true -> kv_mem (ms_db st) k = true
@@ -175,22 +206,40 @@ Definition dur_inv (k : key) (st : mstore) (b : bool) : Prop :=
 Lemma relay_in_app : forall k a b, relay_in k (a ++ b) = relay_in k a || relay_in k b.
 Proof. intros. unfold relay_in. apply existsb_app. Qed.
 
-Lemma relay_in_relays : forall k c add, relay_in k (relays_of c add) = true -> kv_mem add k = true.
+Lemma relay_in_confirm_all : forall k c l cs, relay_in k (snd (confirm_all c cs l)) = true -> kv_mem l k = true.
 Proof.
-  intros k c add. unfold relays_of, relay_in. rewrite existsb_exists. intros [e [Hin He]].
-  apply in_map_iff in Hin as [[k0 m0] [Ee Hin]]. subst e. cbn in He. apply keqb_eq in He. subst k0.
-  apply filter_In in Hin as [Hin _]. apply kv_mem_get. clear - Hin.
-  induction add as [|[k1 m1] t IH]; [contradiction|]. cbn. destruct (keqb k k1) eqn:E; [eauto|].
-  destruct Hin as [H|H]; [inversion H; subst; rewrite keqb_refl in E; discriminate | apply IH; exact H].
+  intros k c. induction l as [|[k0 m0] t IH]; intros cs H; [discriminate|]. cbn [confirm_all] in H.
+  unfold kv_mem. cbn [kv_get]. destruct (keqb k k0) eqn:E; [reflexivity|]. fold (kv_mem t k).
+  destruct (wants_relay c m0); [|eapply IH; exact H].
+  destruct (meta_confirm cs m0) as [cs1 done]. destruct (confirm_all c cs1 t) as [cs2 ev] eqn:Ec. cbn [snd] in H.
+  assert (Hev : relay_in k ev = true).
+  { destruct done; [|exact H]. cbn in H. rewrite E in H. exact H. }
+  apply (IH cs1). rewrite Ec. exact Hev.
 Qed.
 
-Lemma dur_swap : forall k st b, dur_inv k st b -> dur_inv k (fst (ms_swap st)) b /\ snd (ms_swap st) = [].
+Lemma relay_in_relays : forall k c cs f, relay_in k (snd (relays_of c cs f)) = true ->
+  kv_mem (if_add f) k = true \/ kv_mem (if_settled f) k = true.
 Proof.
-  intros k st b (Hwf & He & Hp & Hd & Hfd & Hb & Hfw). split; [|unfold ms_swap; destruct (ms_fly st); reflexivity].
+  intros k c cs f H. unfold relays_of in H. destruct (confirm_all c cs (if_add f)) as [cs1 e1] eqn:E1.
+  destruct (confirm_all c cs1 (if_settled f)) as [cs2 e2] eqn:E2. cbn [snd] in H. rewrite relay_in_app in H.
+  apply orb_true_iff in H as [H|H]; [left; apply (relay_in_confirm_all k c _ cs); rewrite E1; exact H
+                                    | right; apply (relay_in_confirm_all k c _ cs1); rewrite E2; exact H].
+Qed.
+
+Lemma mem_filter_out {V} : forall (P : key -> bool) (m : kv V) k, P k = false -> kv_mem (filter (fun e => P (fst e)) m) k = false.
+Proof. intros. unfold kv_mem. rewrite get_filter, H. reflexivity. Qed.
+
+Lemma relay_in_cancelled : forall k (l : kv msg), relay_in k (map (fun e => EvCancelled (fst e)) l) = false.
+Proof. intros. unfold relay_in. induction l as [|e t IH]; [reflexivity | exact IH]. Qed.
+
+Lemma dur_swap : forall k st b, dur_inv k st b -> dur_inv k (fst (ms_swap st)) b /\ relay_in k (snd (ms_swap st)) = false.
+Proof.
+  intros k st b (Hwf & He & Hp & Hd & Hfd & Hb & Hfw). split; [|unfold ms_swap; destruct (ms_fly st); [reflexivity | apply relay_in_cancelled]].
   split; [apply wf_swap; exact Hwf|]. unfold ms_swap, fly_written_in in *. destruct (ms_fly st) as [f|] eqn:E; cbn.
-  - rewrite E. repeat split; assumption.
-  - repeat split; try assumption; try reflexivity.
+  - rewrite E. cbn in Hfd. destruct Hfd. unfold fly_del_free. repeat split; assumption.
+  - unfold fly_del_free. repeat split; try assumption; try reflexivity.
     + unfold cancel_del. cbn. apply mem_filter_false with (P := fun x => negb (kv_mem (ms_add st) x)). exact Hd.
+    + unfold settled_of. cbn. apply (mem_filter_out (fun x => kv_mem (ms_del st) x)). exact Hd.
     + discriminate.
 Qed.
 
@@ -198,16 +247,16 @@ Lemma dur_batch : forall k st b, dur_inv k st b ->
   dur_inv k (fst (ms_batch st)) b /\ relay_in k (snd (ms_batch st)) = false.
 Proof.
   intros k st b Hinv. pose proof Hinv as (Hwf & He & Hp & Hd & Hfd & Hb & Hfw).
-  unfold ms_batch, fly_written_in in *. destruct (ms_fly st) as [f|] eqn:E; [|split; [exact Hinv | reflexivity]].
+  rewrite ms_batch_eq. unfold fly_written_in in *. destruct (ms_fly st) as [f|] eqn:E; [|split; [exact Hinv | reflexivity]].
   destruct (if_stage f) eqn:Es; [|split; [exact Hinv | reflexivity]].
-  rewrite He. cbn [eng_batch]. rewrite gen_confirm_after_batch. cbn [fst snd]. split; [|reflexivity].
+  rewrite He. cbn [eng_batch fst snd]. split; [|reflexivity].
   destruct Hwf as (Hsd & Hsa & Hsu & Hsdl & Hsf). try rewrite E in Hsf. try rewrite E in Hfd.
-  cbn in Hsf. destruct Hsf as (Hfa & Hfu & Hfdl). cbn in Hfd.
+  cbn in Hsf. destruct Hsf as (Hfa & Hfu & Hfdl). cbn in Hfd. destruct Hfd as [Hfd Hfs].
   assert (Hget : forall x, kv_get (kv_batch (ms_db st) (batch_of f)) x =
      if kv_mem (if_del f) x then None else match kv_get (if_upd f) x with Some m => Some (strip m) | None =>
        match kv_get (if_add f) x with Some m => Some (strip m) | None => kv_get (ms_db st) x end end)
     by (intro x; apply get_persist_batch; assumption).
-  repeat split; cbn; try assumption.
+  unfold dur_inv, ms_wf, fly_wf, fly_del_free. cbn. repeat split; try assumption.
   - apply ksorted_batch. exact Hsd.
   - intro Hbt. specialize (Hb Hbt). unfold kv_mem in *. rewrite Hget. unfold kv_mem.
     destruct (kv_get (if_del f) k); [discriminate|]. destruct (kv_get (if_upd f) k); [reflexivity|].
@@ -221,13 +270,12 @@ Lemma dur_confirm : forall k st b, dur_inv k st b ->
   dur_inv k (fst (ms_confirm_step st)) (b || relay_in k (snd (ms_confirm_step st))).
 Proof.
   intros k st b Hinv. pose proof Hinv as (Hwf & He & Hp & Hd & Hfd & Hb & Hfw).
-  unfold ms_confirm_step, fly_written_in in *. destruct (ms_fly st) as [f|] eqn:E; [|cbn; rewrite orb_false_r; exact Hinv].
+  rewrite ms_confirm_eq. unfold fly_written_in in *. destruct (ms_fly st) as [f|] eqn:E; [|cbn; rewrite orb_false_r; exact Hinv].
   destruct (if_stage f) eqn:Es; [cbn; rewrite orb_false_r; exact Hinv|].
-  rewrite gen_confirm_after_batch. cbn [fst snd].
-  destruct Hwf as (Hsd & Hsa & Hsu & Hsdl & Hsf).
-  repeat split; cbn; try assumption.
+  cbn [fst snd]. destruct Hwf as (Hsd & Hsa & Hsu & Hsdl & Hsf). try rewrite E in Hfd. cbn in Hfd. destruct Hfd as [Hfd Hfs].
+  unfold dur_inv, ms_wf, fly_wf, fly_del_free. cbn. repeat split; try assumption.
   intro H. apply orb_true_iff in H as [H|H]; [apply Hb; exact H|].
-  apply Hfw; [reflexivity|]. eapply relay_in_relays. exact H.
+  apply relay_in_relays in H as [H|H]; [apply Hfw; [reflexivity | exact H] | congruence].
 Qed.
 
 Lemma dur_kill : forall k st b, dur_inv k st b -> dur_inv k (ms_kill st) b.
@@ -258,13 +306,15 @@ Proof.
   - cbn. exact Hinv.
   - destruct (ms_iter st q limit). cbn. rewrite orb_false_r. exact Hinv.
   - destruct (ms_recover st q limit). cbn. rewrite orb_false_r. exact Hinv.
-  - destruct (dur_swap k st b Hinv) as [H1 H2]. rewrite H2. cbn. rewrite orb_false_r. exact H1.
+  - destruct (dur_swap k st b Hinv) as [H1 H2]. rewrite H2, orb_false_r. exact H1.
   - destruct (dur_batch k st b Hinv) as [H1 H2]. rewrite H2, orb_false_r. exact H1.
   - apply dur_confirm. exact Hinv.
   - (* tick *) rewrite !seq_steps_fst, !seq_steps_snd, !relay_in_app.
-    destruct (dur_swap k st b Hinv) as [H1 H2]. rewrite H2. cbn [relay_in existsb orb].
+    destruct (dur_swap k st b Hinv) as [H1 H2]. rewrite H2. cbn [orb].
     destruct (dur_batch k _ b H1) as [H3 H4]. rewrite H4. cbn [orb].
     apply dur_confirm. exact H3.
+  - (* MExtConfirm: only the counters change *)
+    destruct Hwf as (W1 & W2 & W3 & W4 & W5). unfold dur_inv, ms_wf, fly_written_in in *. cbn. repeat split; assumption.
   - apply dur_kill. exact Hinv.
 Qed.
 
@@ -297,21 +347,24 @@ Proof.
 Qed.
 
 (* ------------------------------------------------------------ C05 store clause: a relay is never early *)
-(* scanning the event list: a relay of k is acceptable only once a completed batch has Set k *)
+(* what licenses a relay of k: a completed batch that Set k, or the snapshot event saying that the add of k was
+   cancelled by a del of k (the message was settled before the flush: nothing has to be durable) *)
+Definition marks (k : key) (e : mevent) : bool := batch_sets k e || cancelled_ev k e.
+
 Fixpoint ne_ok (k : key) (seen : bool) (evs : list mevent) : bool :=
   match evs with
   | [] => true
   | EvRelay k' _ :: r => (negb (keqb k k') || seen) && ne_ok k seen r
-  | e :: r => ne_ok k (seen || batch_sets k e) r
+  | e :: r => ne_ok k (seen || marks k e) r
   end.
 
-Definition seen_after (k : key) (seen : bool) (evs : list mevent) : bool := seen || existsb (batch_sets k) evs.
+Definition seen_after (k : key) (seen : bool) (evs : list mevent) : bool := seen || existsb (marks k) evs.
 
 Lemma ne_ok_app : forall k a seen b, ne_ok k seen (a ++ b) = ne_ok k seen a && ne_ok k (seen_after k seen a) b.
 Proof.
   induction a as [|e a IH]; intros seen b; cbn [app ne_ok].
   - unfold seen_after. cbn. rewrite orb_false_r. reflexivity.
-  - unfold seen_after in *. destruct e; cbn [existsb batch_sets]; try (rewrite IH, <- ?orb_assoc; reflexivity).
+  - unfold seen_after in *. destruct e; cbn [existsb]; try (rewrite IH, <- ?orb_assoc; reflexivity).
     rewrite IH, andb_assoc. cbn. reflexivity.
 Qed.
 
@@ -327,12 +380,16 @@ Qed.
 
 Definition ne_inv (k : key) (st : mstore) (seen : bool) : Prop :=
   match ms_fly st with
-  | Some f => if_stage f = Written -> kv_mem (if_add f) k = true -> seen = true
+  | Some f => (kv_mem (if_settled f) k = true -> seen = true) /\
+              (if_stage f = Written -> kv_mem (if_add f) k = true -> seen = true)
   | None => True
   end.
 
 Lemma ne_inv_mono : forall k st seen x, ne_inv k st seen -> ne_inv k st (seen || x).
-Proof. intros k st seen x H. unfold ne_inv in *. destruct (ms_fly st); [|exact I]. intros A B. rewrite (H A B). reflexivity. Qed.
+Proof.
+  intros k st seen x H. unfold ne_inv in *. destruct (ms_fly st); [|exact I]. destruct H as [H1 H2].
+  split; [intro A; rewrite (H1 A); reflexivity | intros A B; rewrite (H2 A B); reflexivity].
+Qed.
 
 Lemma sets_in_batch : forall k (add : kv msg), kv_mem add k = true ->
   existsb (fun o => match o with BSet k' _ => keqb k k' | BDel _ => false end)
@@ -348,45 +405,82 @@ Proof.
   rewrite existsb_app. rewrite sets_in_batch by exact H. reflexivity.
 Qed.
 
-Lemma ne_ok_relays : forall k seen c (add : kv msg), (kv_mem add k = true -> seen = true) -> ne_ok k seen (relays_of c add) = true.
+Lemma cancelled_marks : forall k (l : kv msg), kv_mem l k = true -> existsb (marks k) (map (fun e => EvCancelled (fst e)) l) = true.
 Proof.
-  intros k seen c add. unfold relays_of. induction add as [|[k0 m0] t IH]; intro H; [reflexivity|].
+  induction l as [|[k0 m0] t IH]; intro H; [discriminate|]. unfold kv_mem in *. cbn in *. unfold marks at 1. cbn.
+  destruct (keqb k k0); [reflexivity|]. cbn. apply IH. exact H.
+Qed.
+
+Lemma ne_ok_cancelled : forall k seen (l : kv msg), ne_ok k seen (map (fun e => EvCancelled (fst e)) l) = true.
+Proof. intros k seen l. revert seen. induction l as [|e t IH]; intro seen; [reflexivity | apply IH]. Qed.
+
+Lemma ne_ok_confirm_all : forall k seen c l cs, (kv_mem l k = true -> seen = true) -> ne_ok k seen (snd (confirm_all c cs l)) = true.
+Proof.
+  intros k seen c. induction l as [|[k0 m0] t IH]; intros cs H; [reflexivity|].
   assert (Ht : kv_mem t k = true -> seen = true).
   { intro Hk. apply H. unfold kv_mem in *. cbn. destruct (keqb k k0); [reflexivity | exact Hk]. }
-  cbn [filter snd]. destruct (wants_relay c m0); [|apply IH; exact Ht].
-  cbn [map ne_ok fst snd]. rewrite (IH Ht), andb_true_r.
+  cbn [confirm_all]. destruct (wants_relay c m0); [|apply IH; exact Ht].
+  destruct (meta_confirm cs m0) as [cs1 done]. pose proof (IH cs1 Ht) as Hr. destruct (confirm_all c cs1 t) as [cs2 ev]. cbn [snd] in *.
+  destruct done; [|exact Hr]. cbn [ne_ok]. rewrite Hr, andb_true_r.
   destruct (keqb k k0) eqn:E; [|reflexivity]. cbn. apply H. unfold kv_mem. cbn. rewrite E. reflexivity.
 Qed.
 
-Lemma relays_no_batch : forall k c add, existsb (batch_sets k) (relays_of c add) = false.
-Proof. intros. unfold relays_of. induction (filter (fun e => wants_relay c (snd e)) add); [reflexivity | exact IHl]. Qed.
-
-Lemma ne_swap : forall k st seen, ne_inv k st seen -> ne_inv k (fst (ms_swap st)) seen /\ snd (ms_swap st) = [].
+Lemma confirm_all_no_marks : forall k c l cs, existsb (marks k) (snd (confirm_all c cs l)) = false.
 Proof.
-  intros k st seen H. unfold ms_swap, ne_inv in *. destruct (ms_fly st) as [f|] eqn:E; cbn; [rewrite E|]; split; try reflexivity; try exact H.
-  discriminate.
+  intros k c. induction l as [|[k0 m0] t IH]; intro cs; [reflexivity|]. cbn [confirm_all].
+  destruct (wants_relay c m0); [|apply IH]. destruct (meta_confirm cs m0) as [cs1 done]. pose proof (IH cs1) as Hr.
+  destruct (confirm_all c cs1 t) as [cs2 ev]. cbn [snd] in *. destruct done; [cbn; exact Hr | exact Hr].
+Qed.
+
+Lemma ne_ok_relays : forall k seen c cs f, (kv_mem (if_add f) k = true -> seen = true) -> (kv_mem (if_settled f) k = true -> seen = true) ->
+  ne_ok k seen (snd (relays_of c cs f)) = true.
+Proof.
+  intros k seen c cs f Ha Hs. unfold relays_of.
+  pose proof (ne_ok_confirm_all k seen c (if_add f) cs Ha) as H1. pose proof (confirm_all_no_marks k c (if_add f) cs) as N1.
+  destruct (confirm_all c cs (if_add f)) as [cs1 e1]. cbn [snd] in *.
+  pose proof (ne_ok_confirm_all k seen c (if_settled f) cs1 Hs) as H2. destruct (confirm_all c cs1 (if_settled f)) as [cs2 e2]. cbn [snd] in *.
+  rewrite ne_ok_app, H1. unfold seen_after. rewrite N1, orb_false_r. exact H2.
+Qed.
+
+Lemma relays_no_marks : forall k c cs f, existsb (marks k) (snd (relays_of c cs f)) = false.
+Proof.
+  intros k c cs f. unfold relays_of. pose proof (confirm_all_no_marks k c (if_add f) cs) as N1.
+  destruct (confirm_all c cs (if_add f)) as [cs1 e1]. pose proof (confirm_all_no_marks k c (if_settled f) cs1) as N2.
+  destruct (confirm_all c cs1 (if_settled f)) as [cs2 e2]. cbn [snd] in *. rewrite existsb_app, N1, N2. reflexivity.
+Qed.
+
+Lemma ne_swap : forall k st seen, ne_inv k st seen ->
+  ne_ok k seen (snd (ms_swap st)) = true /\ ne_inv k (fst (ms_swap st)) (seen_after k seen (snd (ms_swap st))).
+Proof.
+  intros k st seen H. unfold ms_swap, ne_inv in *. destruct (ms_fly st) as [f|] eqn:E; cbn [fst snd].
+  - rewrite E. split; [reflexivity|]. unfold seen_after. cbn. rewrite orb_false_r. exact H.
+  - split; [apply ne_ok_cancelled|]. cbn [ms_fly if_settled if_stage if_add]. split; [|discriminate].
+    intro Hs. unfold seen_after. rewrite cancelled_marks by exact Hs. apply orb_true_r.
 Qed.
 
 Lemma ne_batch : forall k st seen, ne_inv k st seen ->
   ne_ok k seen (snd (ms_batch st)) = true /\ ne_inv k (fst (ms_batch st)) (seen_after k seen (snd (ms_batch st))).
 Proof.
-  intros k st seen H. unfold ms_batch, ne_inv in *. destruct (ms_fly st) as [f|] eqn:E.
-  - destruct (if_stage f) eqn:Es.
-    + destruct (eng_batch (ms_engine st) (ms_db st) (batch_of f)) as [db'|]; rewrite ?gen_confirm_after_batch; cbn [fst snd].
-      * split; [reflexivity|]. unfold set_db. cbn [ms_fly if_stage if_add]. intros _ Hin. unfold seen_after. cbn [existsb]. rewrite batch_sets_of by exact Hin.
-        rewrite orb_true_r. reflexivity.
+  intros k st seen H. rewrite ms_batch_eq. unfold ne_inv in *. destruct (ms_fly st) as [f|] eqn:E.
+  - destruct H as [H1 H2]. destruct (if_stage f) eqn:Es.
+    + destruct (eng_batch (ms_engine st) (ms_db st) (batch_of f)) as [db'|]; cbn [fst snd].
+      * split; [reflexivity|]. unfold set_db, written. cbn [ms_fly if_stage if_add if_settled]. unfold seen_after. cbn [existsb]. split.
+        -- intro A. rewrite (H1 A). reflexivity.
+        -- intros _ Hin. unfold marks. rewrite batch_sets_of by exact Hin. cbn. apply orb_true_r.
       * split; [reflexivity | exact I].
-    + cbn [fst snd]. rewrite E. split; [reflexivity|]. unfold seen_after. cbn. rewrite orb_false_r. intros _ Hin. apply H; [reflexivity | exact Hin].
+    + cbn [fst snd]. rewrite E. split; [reflexivity|]. unfold seen_after. cbn. rewrite orb_false_r. split; [exact H1|].
+      intros _ Hin. apply H2; [reflexivity | exact Hin].
   - cbn [fst snd]. rewrite E. split; [reflexivity | exact I].
 Qed.
 
 Lemma ne_confirm : forall k st seen, ne_inv k st seen ->
   ne_ok k seen (snd (ms_confirm_step st)) = true /\ ne_inv k (fst (ms_confirm_step st)) (seen_after k seen (snd (ms_confirm_step st))).
 Proof.
-  intros k st seen H. unfold ms_confirm_step, ne_inv in *. destruct (ms_fly st) as [f|] eqn:E.
-  - destruct (if_stage f) eqn:Es.
-    + cbn [fst snd]. rewrite E. split; [reflexivity|]. unfold seen_after. cbn. rewrite orb_false_r. intros A. rewrite Es in A. discriminate.
-    + rewrite gen_confirm_after_batch. cbn [fst snd]. split; [|exact I]. apply ne_ok_relays. apply H. reflexivity.
+  intros k st seen H. rewrite ms_confirm_eq. unfold ne_inv in *. destruct (ms_fly st) as [f|] eqn:E.
+  - destruct H as [H1 H2]. destruct (if_stage f) eqn:Es.
+    + cbn [fst snd]. rewrite E. split; [reflexivity|]. unfold seen_after. cbn. rewrite orb_false_r. split; [exact H1|].
+      intro A. rewrite Es in A. discriminate.
+    + cbn [fst snd]. split; [|exact I]. apply ne_ok_relays; [apply H2; reflexivity | exact H1].
   - cbn [fst snd]. rewrite E. split; [reflexivity | exact I].
 Qed.
 
@@ -394,19 +488,19 @@ Lemma ne_step : forall k st seen l, ne_inv k st seen ->
   ne_ok k seen (snd (ms_step st l)) = true /\ ne_inv k (fst (ms_step st l)) (seen_after k seen (snd (ms_step st l))).
 Proof.
   intros k st seen l H.
-  assert (Hsame : forall st', ms_fly st' = ms_fly st -> forall evs, existsb (batch_sets k) evs = false ->
+  assert (Hsame : forall st', ms_fly st' = ms_fly st -> forall evs, existsb (marks k) evs = false ->
             ne_inv k st' (seen_after k seen evs)).
   { intros st' Ef evs Hev. unfold seen_after. rewrite Hev, orb_false_r. unfold ne_inv in *. rewrite Ef. exact H. }
   destruct l; cbn [ms_step fst snd]; try (split; [reflexivity | apply Hsame; reflexivity]).
   - destruct (ms_iter_from st q id limit). cbn [fst snd]. split; [reflexivity | apply Hsame; reflexivity].
   - destruct (ms_iter st q limit). cbn [fst snd]. split; [reflexivity | apply Hsame; reflexivity].
   - destruct (ms_recover st q limit). cbn [fst snd]. split; [reflexivity | apply Hsame; reflexivity].
-  - destruct (ne_swap k st seen H) as [H1 H2]. rewrite H2. split; [reflexivity|]. unfold seen_after. cbn. rewrite orb_false_r. exact H1.
+  - apply ne_swap. exact H.
   - apply ne_batch. exact H.
   - apply ne_confirm. exact H.
-  - rewrite !seq_steps_fst, !seq_steps_snd. destruct (ne_swap k st seen H) as [H1 H2]. rewrite H2. cbn [app].
-    destruct (ne_batch k _ seen H1) as [H3 H4]. destruct (ne_confirm k _ _ H4) as [H5 H6].
-    rewrite ne_ok_app, seen_after_app. rewrite H3, H5. split; [reflexivity | exact H6].
+  - rewrite !seq_steps_fst, !seq_steps_snd. destruct (ne_swap k st seen H) as [H1 H2].
+    destruct (ne_batch k _ _ H2) as [H3 H4]. destruct (ne_confirm k _ _ H4) as [H5 H6].
+    rewrite !ne_ok_app, !seen_after_app. rewrite H1, H3, H5. split; [reflexivity | exact H6].
   - split; [reflexivity|]. unfold ne_inv. cbn. exact I.
 Qed.
 
@@ -416,15 +510,103 @@ Proof.
   destruct (ne_step k st seen l H) as [H1 H2]. rewrite ne_ok_app, H1. cbn. apply IH. exact H2.
 Qed.
 
-(* C05 store clause: whatever the engine, mode and label sequence, every relay of a key is preceded in the
-   event sequence by a completed batch that Sets that key *)
+(* C05 store clause: whatever the engine, mode and label sequence, every relay of a key is preceded in the event
+   sequence by a completed batch that Sets that key, or by the snapshot of a persist in which the add of that key
+   was cancelled by a del of the same key *)
 Theorem store_not_early : forall e p c ls evs1 k m evs2,
   snd (ms_run (ms_init e p c) ls) = evs1 ++ EvRelay k m :: evs2 ->
-  existsb (batch_sets k) evs1 = true.
+  existsb (batch_sets k) evs1 = true \/ existsb (cancelled_ev k) evs1 = true.
 Proof.
   intros e p c ls evs1 k m evs2 E.
   assert (H : ne_ok k false (snd (ms_run (ms_init e p c) ls)) = true) by (apply ne_run; exact I).
-  exact (ne_ok_split k _ false evs1 m evs2 H E).
+  pose proof (ne_ok_split k _ false evs1 m evs2 H E) as X. unfold seen_after in X. cbn [orb] in X.
+  clear - X. induction evs1 as [|x t IH]; [discriminate|]. cbn [existsb] in *. unfold marks at 1 in X.
+  destruct (batch_sets k x); [left; reflexivity|]. destruct (cancelled_ev k x); [right; reflexivity|].
+  cbn [orb] in *. destruct (IH X) as [A|A]; [left | right]; rewrite A; reflexivity.
+Qed.
+
+Lemma existsb_app_false {A} : forall (f : A -> bool) a b, existsb f (a ++ b) = false -> existsb f a = false.
+Proof. intros f a b H. rewrite existsb_app in H. apply orb_false_iff in H. tauto. Qed.
+
+(* ... and a cancelled add means what it says: the key was Added and Del-requested by labels of the run *)
+Definition lab_inv (A D : key -> Prop) (st : mstore) : Prop :=
+  (forall k, kv_mem (ms_add st) k = true -> A k) /\ (forall k, kv_mem (ms_del st) k = true -> D k).
+
+Lemma mem_set_cases {V} : forall (m : kv V) k v x, kv_mem (kv_set m k v) x = true -> x = k \/ kv_mem m x = true.
+Proof.
+  intros m k v x H. unfold kv_mem in *. rewrite get_set in H. destruct (keqb x k) eqn:E; [left; apply keqb_eq; exact E | right; exact H].
+Qed.
+
+Lemma lab_step : forall (A D : key -> Prop) st l,
+  (forall m q, l = MAdd m q -> A (msg_key q (m_id m))) -> (forall m q, l = MDel m q -> D (msg_key q (m_id m))) ->
+  lab_inv A D st ->
+  lab_inv A D (fst (ms_step st l)) /\ (forall k, existsb (cancelled_ev k) (snd (ms_step st l)) = true -> A k /\ D k).
+Proof.
+  intros A D st l HA HD [Ia Id].
+  assert (Hnone : forall st', ms_add st' = ms_add st -> ms_del st' = ms_del st -> lab_inv A D st').
+  { intros st' E1 E2. unfold lab_inv. rewrite E1, E2. split; assumption. }
+  assert (Hempty : forall st', ms_add st' = [] -> ms_del st' = [] -> lab_inv A D st').
+  { intros st' E1 E2. unfold lab_inv. rewrite E1, E2. split; intros k X; discriminate. }
+  assert (Hswap : lab_inv A D (fst (ms_swap st)) /\ (forall k, existsb (cancelled_ev k) (snd (ms_swap st)) = true -> A k /\ D k)).
+  { unfold ms_swap. destruct (ms_fly st); cbn [fst snd]; [split; [split; assumption | intros k X; discriminate]|].
+    split; [apply Hempty; reflexivity|]. intros k X. cbn [if_settled] in X. unfold settled_of in X.
+    destruct (persist_del_cancels_add && persist_settled_confirmed); [|discriminate].
+    assert (Hm : kv_mem (filter (fun e => kv_mem (ms_del st) (fst e)) (ms_add st)) k = true).
+    { clear - X. induction (filter (fun e => kv_mem (ms_del st) (fst e)) (ms_add st)) as [|[k0 m0] t IH]; [discriminate|].
+      cbn in X. unfold kv_mem. cbn. destruct (keqb k k0); [reflexivity|]. cbn in X. apply IH. exact X. }
+    unfold kv_mem in Hm. rewrite (get_filter msg (fun x => kv_mem (ms_del st) x)) in Hm.
+    destruct (kv_mem (ms_del st) k) eqn:Ed; [|discriminate]. split; [apply Ia; unfold kv_mem; exact Hm | apply Id; exact Ed]. }
+  assert (Hbatch : forall s, lab_inv A D s -> lab_inv A D (fst (ms_batch s)) /\ (forall k, existsb (cancelled_ev k) (snd (ms_batch s)) = true -> A k /\ D k)).
+  { intros s Hs. rewrite ms_batch_eq. destruct (ms_fly s) as [f|]; [|split; [exact Hs | intros k X; discriminate]].
+    destruct (if_stage f); [|split; [exact Hs | intros k X; discriminate]].
+    destruct (eng_batch (ms_engine s) (ms_db s) (batch_of f)) as [db'|]; cbn [fst snd]; (split; [|intros k X; discriminate]).
+    - destruct Hs. split; assumption.
+    - unfold lab_inv. cbn. split; intros k X; discriminate. }
+  assert (Hconf : forall s, lab_inv A D s -> lab_inv A D (fst (ms_confirm_step s)) /\ (forall k, existsb (cancelled_ev k) (snd (ms_confirm_step s)) = true -> A k /\ D k)).
+  { intros s Hs. rewrite ms_confirm_eq. destruct (ms_fly s) as [f|]; [|split; [exact Hs | intros k X; discriminate]].
+    destruct (if_stage f); [split; [exact Hs | intros k X; discriminate]|]. cbn [fst snd]. split; [destruct Hs; split; assumption|].
+    intros k X. exfalso. pose proof (relays_no_marks k (ms_confirm s) (ms_counts s) f) as N.
+    clear - X N. induction (snd (relays_of (ms_confirm s) (ms_counts s) f)) as [|e t IH]; [discriminate|].
+    cbn [existsb] in *. unfold marks at 1 in N. destruct (cancelled_ev k e); [rewrite orb_true_r in N; discriminate|].
+    cbn [orb] in X. apply orb_false_iff in N as [_ N]. apply IH; assumption. }
+  destruct l; cbn [ms_step fst snd]; try (split; [apply Hnone; reflexivity | intros k X; discriminate]).
+  - split; [|intros k X; discriminate]. split; cbn; [|exact Id].
+    intros k X. apply mem_set_cases in X as [->|X]; [apply (HA m q); reflexivity | apply Ia; exact X].
+  - split; [|intros k X; discriminate]. split; cbn; [exact Ia|].
+    intros k X. apply mem_set_cases in X as [->|X]; [apply (HD m q); reflexivity | apply Id; exact X].
+  - destruct (ms_iter_from st q id limit). cbn [fst snd]. split; [split; assumption | intros k X; discriminate].
+  - destruct (ms_iter st q limit). cbn [fst snd]. split; [split; assumption | intros k X; discriminate].
+  - destruct (ms_recover st q limit). cbn [fst snd]. split; [split; assumption | intros k X; discriminate].
+  - exact Hswap.
+  - apply Hbatch. split; assumption.
+  - apply Hconf. split; assumption.
+  - rewrite !seq_steps_fst, !seq_steps_snd. destruct Hswap as [S1 S2]. destruct (Hbatch _ S1) as [B1 B2]. destruct (Hconf _ B1) as [C1 C2].
+    split; [exact C1|]. intros k X. rewrite !existsb_app in X. apply orb_true_iff in X as [X|X]; [apply S2; exact X|].
+    apply orb_true_iff in X as [X|X]; [apply B2 | apply C2]; exact X.
+  - split; [apply Hempty; reflexivity | intros k X; discriminate].
+Qed.
+
+Lemma lab_run : forall (A D : key -> Prop) ls st,
+  (forall m q, In (MAdd m q) ls -> A (msg_key q (m_id m))) -> (forall m q, In (MDel m q) ls -> D (msg_key q (m_id m))) ->
+  lab_inv A D st -> forall k, existsb (cancelled_ev k) (snd (ms_run st ls)) = true -> A k /\ D k.
+Proof.
+  induction ls as [|l r IH]; intros st HA HD Hi k X; [discriminate|]. rewrite run_cons in X. cbn [snd] in X.
+  destruct (lab_step A D st l) as [H1 H2]; try assumption.
+  - intros m q E. apply HA. left. exact E.
+  - intros m q E. apply HD. left. exact E.
+  - rewrite existsb_app in X. apply orb_true_iff in X as [X|X]; [apply H2; exact X|].
+    eapply IH; try eassumption; intros m q Hin; [apply HA | apply HD]; right; exact Hin.
+Qed.
+
+Theorem cancelled_means_settled : forall e p c ls k,
+  existsb (cancelled_ev k) (snd (ms_run (ms_init e p c) ls)) = true ->
+  existsb (is_add_of k) ls = true /\ existsb (is_del_of k) ls = true.
+Proof.
+  intros e p c ls k X.
+  apply (lab_run (fun x => existsb (is_add_of x) ls = true) (fun x => existsb (is_del_of x) ls = true) ls (ms_init e p c)); try exact X.
+  - intros m q Hin. apply existsb_exists. exists (MAdd m q). split; [exact Hin | cbn; apply keqb_refl].
+  - intros m q Hin. apply existsb_exists. exists (MDel m q). split; [exact Hin | cbn; apply keqb_refl].
+  - split; intros x Y; discriminate.
 Qed.
 
 (* ------------------------------------------------------------ C17: isolation between queues at the store *)
@@ -582,7 +764,7 @@ Qed.
 
 Lemma src_batch : forall S st, src_inv S st -> src_inv S (fst (ms_batch st)).
 Proof.
-  intros S st Hinv. pose proof Hinv as (H1 & H2 & H3 & H4). unfold ms_batch.
+  intros S st Hinv. pose proof Hinv as (H1 & H2 & H3 & H4). rewrite ms_batch_eq.
   destruct (ms_fly st) as [f|] eqn:E; [|exact Hinv]. destruct (if_stage f); [|exact Hinv].
   destruct (eng_batch (ms_engine st) (ms_db st) (batch_of f)) as [db'|] eqn:Eb; cbn [fst]; [|apply src_kill; exact Hinv].
   assert (Hdb : db' = kv_batch (ms_db st) (batch_of f)).
@@ -594,8 +776,8 @@ Qed.
 
 Lemma src_confirm : forall S st, src_inv S st -> src_inv S (fst (ms_confirm_step st)).
 Proof.
-  intros S st Hinv. pose proof Hinv as (H1 & H2 & H3 & H4). unfold ms_confirm_step.
-  destruct (ms_fly st) as [f|] eqn:E; [|exact Hinv]. destruct (if_stage f); [exact Hinv|]. cbn.
+  intros S st Hinv. pose proof Hinv as (H1 & H2 & H3 & H4). rewrite ms_confirm_eq.
+  destruct (ms_fly st) as [f|] eqn:E; [|exact Hinv]. destruct (if_stage f); [exact Hinv|]. cbn [fst].
   unfold src_inv. cbn. repeat split; assumption.
 Qed.
 
@@ -706,7 +888,7 @@ Qed.
 (* ------------------------------------------------------------ refutations (closed computations on the model) *)
 Definition qa := bs "a".
 Definition qab := bs "a.b".
-Definition mk (id data : N) : msg := {| m_id := id; m_data := data; m_ctag := Some 1 |}.
+Definition mk (id data : N) : msg := {| m_id := id; m_data := data; m_ctag := Some 1; m_meta := id; m_expected := 1 |}.
 
 (* F23: on the buntdb wrapper a confirmed message is never recovered *)
 Lemma bunt_not_recovered :
@@ -866,11 +1048,11 @@ Lemma engine_swap : forall st, ms_engine (fst (ms_swap st)) = ms_engine st.
 Proof. intro st. unfold ms_swap. destruct (ms_fly st); reflexivity. Qed.
 Lemma engine_batch : forall st, ms_engine (fst (ms_batch st)) = ms_engine st.
 Proof.
-  intro st. unfold ms_batch. destruct (ms_fly st) as [f|]; [|reflexivity]. destruct (if_stage f); [|reflexivity].
+  intro st. rewrite ms_batch_eq. destruct (ms_fly st) as [f|]; [|reflexivity]. destruct (if_stage f); [|reflexivity].
   destruct (eng_batch (ms_engine st) (ms_db st) (batch_of f)); reflexivity.
 Qed.
 Lemma engine_confirm : forall st, ms_engine (fst (ms_confirm_step st)) = ms_engine st.
-Proof. intro st. unfold ms_confirm_step. destruct (ms_fly st) as [f|]; [|reflexivity]. destruct (if_stage f); reflexivity. Qed.
+Proof. intro st. rewrite ms_confirm_eq. destruct (ms_fly st) as [f|]; [|reflexivity]. destruct (if_stage f); reflexivity. Qed.
 Lemma engine_step : forall st l, ms_engine (fst (ms_step st l)) = ms_engine st.
 Proof.
   intros st l. destruct l; cbn [ms_step fst]; try reflexivity.
@@ -985,11 +1167,11 @@ Qed.
 Lemma agree_batch : forall q s1 s2, agree q s1 s2 -> agree q (fst (ms_batch s1)) (fst (ms_batch s2)).
 Proof.
   intros q s1 s2 H. pose proof (wf_batch s1 (ag_wf1 _ _ _ H)) as W1. pose proof (wf_batch s2 (ag_wf2 _ _ _ H)) as W2. destruct H.
-  unfold ms_batch in *. destruct (ms_fly s1) as [f1|] eqn:E1, (ms_fly s2) as [f2|] eqn:E2; cbn in ag_fly0; try contradiction.
+  rewrite !ms_batch_eq in *. destruct (ms_fly s1) as [f1|] eqn:E1, (ms_fly s2) as [f2|] eqn:E2; cbn in ag_fly0; try contradiction.
   - destruct ag_fly0 as (Hs & Ha & Hu & Hd). rewrite <- Hs in *. destruct (if_stage f1) eqn:Es.
     + rewrite ag_e3, ag_e4 in *. cbn [eng_batch fst] in *.
       destruct ag_wf3 as (_ & _ & _ & _ & F1). destruct ag_wf4 as (_ & _ & _ & _ & F2). rewrite E1 in F1. rewrite E2 in F2. cbn in F1, F2.
-      constructor; try assumption; unfold set_db; cbn [ms_db ms_add ms_upd ms_del ms_fly ms_engine ms_persistent ms_confirm if_stage if_add if_upd if_del agree_fly].
+      constructor; try assumption; unfold set_db, written; cbn [ms_db ms_add ms_upd ms_del ms_fly ms_engine ms_persistent ms_confirm if_stage if_add if_upd if_del agree_fly].
       * intros x Hx. rewrite !get_persist_batch by tauto. unfold kv_mem. rewrite (Hd x Hx), (Hu x Hx), (Ha x Hx), (ag_db0 x Hx). reflexivity.
       * repeat split; assumption.
     + cbn [fst] in *. constructor; try assumption. rewrite E1, E2. cbn. rewrite ?Es. repeat split; try assumption; try congruence.
@@ -999,7 +1181,7 @@ Qed.
 Lemma agree_confirm : forall q s1 s2, agree q s1 s2 -> agree q (fst (ms_confirm_step s1)) (fst (ms_confirm_step s2)).
 Proof.
   intros q s1 s2 H. pose proof (wf_confirm s1 (ag_wf1 _ _ _ H)) as W1. pose proof (wf_confirm s2 (ag_wf2 _ _ _ H)) as W2. destruct H.
-  unfold ms_confirm_step in *. destruct (ms_fly s1) as [f1|] eqn:E1, (ms_fly s2) as [f2|] eqn:E2; cbn in ag_fly0; try contradiction.
+  rewrite !ms_confirm_eq in *. destruct (ms_fly s1) as [f1|] eqn:E1, (ms_fly s2) as [f2|] eqn:E2; cbn in ag_fly0; try contradiction.
   - destruct ag_fly0 as (Hs & Ha & Hu & Hd). rewrite <- Hs in *. destruct (if_stage f1) eqn:Es; cbn [fst] in *.
     + constructor; try assumption. rewrite E1, E2. cbn. rewrite ?Es. repeat split; try assumption; try congruence.
     + constructor; try assumption. cbn. exact I.
@@ -1031,6 +1213,7 @@ Proof.
   - apply agree_batch. exact H.
   - apply agree_confirm. exact H.
   - rewrite !seq_steps_fst. apply agree_confirm, agree_batch, agree_swap. exact H.
+  - destruct H. constructor; assumption.
   - apply agree_kill. exact H.
 Qed.
 
@@ -1087,45 +1270,45 @@ Qed.
 Definition untouched (k : key) (l : mlabel) : bool := negb (is_write_of k l) && negb (is_del_of k l).
 
 Definition clean_fly (k : key) (f : option inflight) : Prop :=
-  match f with Some f => kv_mem (if_add f) k = false /\ kv_mem (if_del f) k = false | None => True end.
+  match f with Some f => kv_mem (if_add f) k = false /\ kv_mem (if_del f) k = false /\ kv_mem (if_settled f) k = false | None => True end.
 Definition clean (k : key) (st : mstore) : Prop :=
   ms_wf st /\ ms_engine st = Badger /\ ms_persistent st = true /\
   kv_mem (ms_add st) k = false /\ kv_mem (ms_del st) k = false /\ clean_fly k (ms_fly st).
 
-Lemma relays_none : forall k c add, kv_mem add k = false -> relay_in k (relays_of c add) = false.
+Lemma relays_none : forall k c cs f, kv_mem (if_add f) k = false -> kv_mem (if_settled f) k = false ->
+  relay_in k (snd (relays_of c cs f)) = false.
 Proof.
-  intros k c add H. destruct (relay_in k (relays_of c add)) eqn:E; [|reflexivity].
-  apply relay_in_relays in E. congruence.
+  intros k c cs f H1 H2. destruct (relay_in k (snd (relays_of c cs f))) eqn:E; [|reflexivity].
+  apply relay_in_relays in E as [E|E]; congruence.
 Qed.
 
-Lemma clean_swap : forall k st, clean k st -> clean k (fst (ms_swap st)) /\ snd (ms_swap st) = [].
+Lemma clean_swap : forall k st, clean k st -> clean k (fst (ms_swap st)) /\ relay_in k (snd (ms_swap st)) = false.
 Proof.
-  intros k st (Hwf & He & Hp & Ha & Hd & Hf). split; [|unfold ms_swap; destruct (ms_fly st); reflexivity].
+  intros k st (Hwf & He & Hp & Ha & Hd & Hf). split; [|unfold ms_swap; destruct (ms_fly st); [reflexivity | apply relay_in_cancelled]].
   split; [apply wf_swap; exact Hwf|]. unfold ms_swap. destruct (ms_fly st) as [f|] eqn:E; cbn.
-  - rewrite E. cbn in Hf. destruct Hf. repeat split; assumption.
-  - repeat split; try assumption; try reflexivity; unfold cancel_add, cancel_del; cbn.
+  - rewrite E. cbn in Hf. destruct Hf as (F1 & F2 & F3). unfold clean_fly. repeat split; assumption.
+  - unfold clean_fly. repeat split; try assumption; try reflexivity; unfold cancel_add, cancel_del, settled_of; cbn.
     + apply mem_filter_false with (P := fun x => negb (kv_mem (ms_del st) x)). exact Ha.
     + apply mem_filter_false with (P := fun x => negb (kv_mem (ms_add st) x)). exact Hd.
+    + apply mem_filter_false with (P := fun x => kv_mem (ms_del st) x). exact Ha.
 Qed.
 
 Lemma clean_batch : forall k st, clean k st -> clean k (fst (ms_batch st)) /\ relay_in k (snd (ms_batch st)) = false.
 Proof.
-  intros k st Hc. pose proof Hc as (Hwf & He & Hp & Ha & Hd & Hf). unfold ms_batch.
+  intros k st Hc. pose proof Hc as (Hwf & He & Hp & Ha & Hd & Hf). pose proof (wf_batch st Hwf) as W. rewrite ms_batch_eq in *.
   destruct (ms_fly st) as [f|] eqn:E; [|split; [exact Hc | reflexivity]].
   destruct (if_stage f) eqn:Es; [|split; [exact Hc | reflexivity]].
-  rewrite He. cbn [eng_batch]. rewrite gen_confirm_after_batch. cbn [fst snd]. split; [|reflexivity].
-  split; [pose proof (wf_batch st Hwf) as W; unfold ms_batch in W; rewrite E, Es, He in W; exact W|].
-  cbn. repeat split; try assumption; cbn in Hf; tauto.
+  rewrite He in *. cbn [eng_batch fst snd] in *. split; [|reflexivity].
+  split; [exact W|]. cbn in Hf. destruct Hf as (F1 & F2 & F3). unfold clean_fly. cbn. repeat split; assumption.
 Qed.
 
 Lemma clean_confirm : forall k st, clean k st -> clean k (fst (ms_confirm_step st)) /\ relay_in k (snd (ms_confirm_step st)) = false.
 Proof.
-  intros k st Hc. pose proof Hc as (Hwf & He & Hp & Ha & Hd & Hf). unfold ms_confirm_step.
+  intros k st Hc. pose proof Hc as (Hwf & He & Hp & Ha & Hd & Hf). pose proof (wf_confirm st Hwf) as W. rewrite ms_confirm_eq in *.
   destruct (ms_fly st) as [f|] eqn:E; [|split; [exact Hc | reflexivity]].
   destruct (if_stage f) eqn:Es; [split; [exact Hc | reflexivity]|].
-  rewrite gen_confirm_after_batch. cbn [fst snd]. cbn in Hf. split; [|apply relays_none; tauto].
-  split; [pose proof (wf_confirm st Hwf) as W; unfold ms_confirm_step in W; rewrite E, Es in W; exact W|].
-  cbn. repeat split; assumption.
+  cbn [fst snd] in *. cbn in Hf. destruct Hf as (F1 & F2 & F3). split; [|apply relays_none; assumption].
+  split; [exact W|]. cbn. repeat split; assumption.
 Qed.
 
 Lemma clean_step : forall k st l, clean k st -> untouched k l = true ->
@@ -1144,11 +1327,12 @@ Proof.
   - exact Hc.
   - destruct (ms_iter st q limit). cbn. split; [exact Hc | reflexivity].
   - destruct (ms_recover st q limit). cbn. split; [exact Hc | reflexivity].
-  - destruct (clean_swap k st Hc) as [H1 H2]. rewrite H2. split; [exact H1 | reflexivity].
+  - apply clean_swap. exact Hc.
   - apply clean_batch. exact Hc.
   - apply clean_confirm. exact Hc.
   - rewrite !seq_steps_fst, !seq_steps_snd, !relay_in_app. destruct (clean_swap k st Hc) as [H1 H2]. rewrite H2.
     destruct (clean_batch k _ H1) as [H3 H4]. destruct (clean_confirm k _ H3) as [H5 H6]. rewrite H4, H6. split; [exact H5 | reflexivity].
+  - destruct Hwf as (W1 & W2 & W3 & W4 & W5). unfold clean, ms_wf. cbn. repeat split; assumption.
   - split; [apply wf_kill; exact Hwf|]. unfold ms_kill. cbn. rewrite Hp. repeat split; try assumption; reflexivity.
 Qed.
 
@@ -1165,8 +1349,8 @@ Lemma clean_dur : forall k st, clean k st -> dur_inv k st false.
 Proof.
   intros k st (Hwf & He & Hp & Ha & Hd & Hf). unfold dur_inv, fly_del_free, fly_written_in.
   destruct (ms_fly st) as [f|]; cbn in Hf.
-  - destruct Hf as [Hf1 Hf2]. split; [exact Hwf|]. split; [exact He|]. split; [exact Hp|]. split; [exact Hd|].
-    split; [exact Hf2|]. split; [discriminate|]. intros _ X. congruence.
+  - destruct Hf as (Hf1 & Hf2 & Hf3). split; [exact Hwf|]. split; [exact He|]. split; [exact Hp|]. split; [exact Hd|].
+    split; [split; assumption|]. split; [discriminate|]. intros _ X. congruence.
   - split; [exact Hwf|]. split; [exact He|]. split; [exact Hp|]. split; [exact Hd|]. split; [exact I|]. split; [discriminate | exact I].
 Qed.
 
@@ -1190,4 +1374,17 @@ Proof.
   destruct (clean_run k ls0 _ Hc H0) as [Hc0 Hr0]. rewrite relay_in_app, Hr0 in Hr. cbn [orb] in Hr.
   pose proof (dur_run k ls1 _ _ (clean_dur _ _ Hc0) H1) as Hinv. cbn [orb] in Hinv. rewrite Hr in Hinv.
   apply dur_kill in Hinv. destruct Hinv as (_ & _ & _ & _ & _ & Hb & _). apply Hb. reflexivity.
+Qed.
+
+
+(* for a key that no label Del-requests the refined clause is the plain one *)
+Theorem store_not_early_undeleted : forall e p c ls evs1 k m evs2,
+  existsb (is_del_of k) ls = false ->
+  snd (ms_run (ms_init e p c) ls) = evs1 ++ EvRelay k m :: evs2 ->
+  existsb (batch_sets k) evs1 = true.
+Proof.
+  intros e p c ls evs1 k m evs2 Hd E. destruct (store_not_early e p c ls evs1 k m evs2 E) as [H|H]; [exact H|]. exfalso.
+  assert (X : existsb (cancelled_ev k) (snd (ms_run (ms_init e p c) ls)) = true).
+  { rewrite E, existsb_app, H. reflexivity. }
+  apply cancelled_means_settled in X as [_ X]. congruence.
 Qed.
